@@ -25,8 +25,9 @@ Print Assumptions C02_hash_join_eq_nested.
 (* Input propagation (what makes the bind join a join): any plan the optimizer may emit for l, run on ANY incoming rows
    that bind at most `inb`, yields the join of those rows with the denotation of l.
    ok_in inb l: every FILTER / BIND-argument variable is certainly bound by the plan it applies to or bound by no
-   incoming row, no BIND target is bound by an incoming row, sub-selects are order-insensitive - the complement of the
-   known classes C01-undef-filter-sibling / C01-bind-target-sibling (= C02-..-plan-dependence).
+   incoming row, sub-selects are order-insensitive - the complement of the one remaining plan-dependent class
+   C01-undef-filter-sibling (= C02-undef-filter-plan-dependence).  A BIND target may be bound by an incoming row: since
+   1fdcd07 BIND joins on it (ExecLemmas.ebind_merge), which repaired C02-bind-target-plan-dependence.
    store_sets st: every graph of the store is a set of triples (C04) - what makes a scan idempotent under join, so that
    the star rewrite may list a pattern of its group again. *)
 Theorem C02_exec_input_join :
